@@ -141,62 +141,113 @@ def check_headers(P, ctx):
 
 
 def check_pointer_arith(P, ctx):
+    """the object pointer and its header: header(), header_init(), the heap allocator, dealloc and type_of agree on where the header of an
+    object lies and what it holds — evaluated (cint) over integer memory with this configuration's struct Header"""
+    from . import cint
     rule = 'C19.pointer-arithmetic'
-    Hs = ('sizeof', ('type', 'struct Header'))
-    # header(self) == self - H
+    fields = [x[0] for x in P.records['Header']['fields']]
+    HDR = 8 * len(fields)
+    BASE, SIZE, TVAL = 100000, 40, 8500
+    OBJ = BASE + HDR
+    MAGIC = P.enums.get('CELLO_MAGIC_NUM', 0xCe110)
+    HEAP = P.enums.get('AllocHeap', 1)
+
+    class Mem:
+        def __init__(self, words=None):
+            self.w = dict(words or {})
+            self.writes = []
+            self.bad = None
+
+        def rd(self, a, it):
+            if not (BASE <= a and a + (it.mem_width or 8) <= BASE + HDR + SIZE):
+                self.bad = self.bad or 'reads at offset %d of a block of %d bytes' % (a - BASE, HDR + SIZE)
+                return 0
+            return self.w.get(a, 0)
+
+        def wr(self, a, v, w, it):
+            if not (BASE <= a and a + (w or 8) <= BASE + HDR + SIZE):
+                self.bad = self.bad or 'writes at offset %d of a block of %d bytes' % (a - BASE, HDR + SIZE)
+                return
+            self.w[a] = v
+            self.writes.append(a)
+    atoms0 = {('global', 'NULL'): 0, ('global', 'Type'): 8400}
+
+    def header_words():
+        w = {}
+        for i, f in enumerate(fields):
+            w[BASE + 8 * i] = {'type': TVAL, 'alloc': HEAP, 'magic': MAGIC}[f]
+        return w
+    # header(self) == the block header_init was given
     f = P.fn('header')
-    N = util.Norm(P, f)
-    rets = [s for s in ir.stmts(f['body']) if s['k'] == 'return']
-    ok = len(rets) == 1 and N.canon(rets[0]['expr']) == ir.canon(('bin', '-', ('param', 'self', 0), Hs))
-    ctx.check(ok, rule, 'header', site(f), 'header(self) is self - sizeof(struct Header)')
+    r = cint.CInt(P, f, atoms=dict(atoms0)).run([OBJ])
+    ok = r[0] == 'ret' and r[1] == BASE
+    ctx.check(ok, rule, 'header', site(f), 'header(self) is self - sizeof(struct Header)', ['header(block + %d) gives block + %s' % (HDR, (r[1] - BASE) if isinstance(r[1], int) else r[1])] if not ok else None)
     # header_init returns head + H and stores type (and class, magic)
     f = P.fn('header_init')
-    g = P.cfg(f)
-    N = util.Norm(P, f)
-    rets = [n for n in g.live() if n['kind'] == 'ret']
-    ok = len(rets) == 1 and N.canon(rets[0]['expr']) == ir.canon(('bin', '+', ('param', 'head', 0), Hs))
-    ctx.check(ok, rule, 'header_init:returns', site(f), 'header_init returns head + sizeof(struct Header)')
-    stores = {}
-    for n in g.live():
-        if n['expr'] is None:
-            continue
-        for ev in util.expr_events(n['expr'], n):
-            if ev['t'] == 'write':
-                lhs = N.canon(ev['lhs'])
-                if lhs[0] == 'arrow' and lhs[1] == ('param', 0):
-                    stores[lhs[2]] = N.canon(ev['rhs'])
-    fields = [x[0] for x in P.records['Header']['fields']]
-    ok = stores.get('type') == ('param', 1) and set(stores) == set(fields)
-    if 'alloc' in fields:
-        ok = ok and stores.get('alloc') == ('param', 2)
-    if 'magic' in fields:
-        ok = ok and util.const_int(stores.get('magic')) == 0xCe110
-    ctx.check(ok, rule, 'header_init:stores', site(f), 'header_init stores the type, the allocation class and the magic number in the header fields (one store per field of this configuration)')
-    # alloc_by: calloc(1, H + size(type))
-    f = P.fn('alloc_by')
-    g = P.cfg(f)
-    N = util.Norm(P, f)
-    cs = [c for n in g.live() if n['expr'] is not None for c in ir.calls(n['expr']) if ir.callee_name(c) == 'calloc']
-    ok = len(cs) == 1
-    if ok:
-        total = poly.from_expr(N.canon(cs[0][2][0])) * poly.from_expr(N.canon(cs[0][2][1]))
-        ok = total == poly.Poly.atom('H') + poly.Poly.atom('size(arg0)')
-    ctx.check(ok, rule, 'alloc_by:block', site(f), 'a heap block is sizeof(struct Header) + size(type) zeroed bytes')
-    # dealloc: free(self - H)
+    m = Mem()
+    r = cint.CInt(P, f, atoms=dict(atoms0), mem=m.rd, memw=m.wr).run([BASE, TVAL, HEAP])
+    ok = r[0] == 'ret' and r[1] == OBJ
+    ctx.check(ok, rule, 'header_init:returns', site(f), 'header_init returns head + sizeof(struct Header)', ['returns block + %s' % ((r[1] - BASE) if isinstance(r[1], int) else r[1])] if not ok else None)
+    ok = r[0] == 'ret' and m.bad is None and m.w == header_words()
+    ctx.check(ok, rule, 'header_init:stores', site(f), 'header_init stores the type, the allocation class and the magic number in the header fields (one store per field of this configuration)',
+              ['header words after the call: %s%s' % ({a - BASE: v for a, v in sorted(m.w.items())}, '; ' + m.bad if m.bad else '')] if not ok else None)
+    # the heap allocator: calloc(1, H + size(type)), header at the block start, object pointer behind it
+    f = P.fn('alloc')
+    m = Mem()
+    st = {}
+
+    def call(nm, e, it):
+        if nm in ('type_instance', 'instance'):
+            return 0
+        if nm == 'size':
+            return SIZE
+        if nm in ('calloc', 'malloc'):
+            a_ = [it.ev(x) for x in e[2]]
+            st['bytes'] = a_[0] * a_[1] if nm == 'calloc' else a_[0]
+            st['zeroed'] = nm == 'calloc'
+            return BASE
+        if nm == 'memset':
+            st['zeroed'] = True
+            return it.ev(e[2][0])
+        if nm == 'current':
+            return 4300
+        if nm == 'set':
+            st['registered'] = it.ev(e[2][1])
+            return 0
+        if nm == 'type_of':
+            return TVAL
+        if nm == 'free':
+            st['freed'] = it.ev(e[2][0])
+            return 0
+        raise cint.NoEval('call %s' % nm)
+    r = cint.CInt(P, f, atoms=dict(atoms0), call=call, recurse=True, mem=m.rd, memw=m.wr, max_depth=6).run([TVAL])
+    if r[0] == 'stuck':
+        ctx.undecided(rule, 'alloc_by:block', site(f), 'alloc leaves the evaluated fragment: %s' % r[1])
+    else:
+        ok = r[0] == 'ret' and r[1] == OBJ and st.get('bytes') == HDR + SIZE and st.get('zeroed') and m.bad is None and {a: v for a, v in m.w.items() if a < OBJ} == header_words()
+        ctx.check(ok, rule, 'alloc_by:block', site(f), 'a heap block is sizeof(struct Header) + size(type) zeroed bytes; the header (type, AllocHeap, magic) is at its start, the object behind it',
+                  ['requests %s bytes (header %d + size %d), returns block + %s' % (st.get('bytes'), HDR, SIZE, (r[1] - BASE) if isinstance(r[1], int) else r[1])] if not ok else None)
+    # dealloc: free(self - H), nothing written outside the block
     f = P.fn('dealloc')
-    g = P.cfg(f)
-    N = util.Norm(P, f)
-    fr = [c for n in g.live() if n['expr'] is not None for c in ir.calls(n['expr']) if ir.callee_name(c) == 'free']
-    ok = len(fr) == 1 and N.canon(fr[0][2][0]) == ir.canon(('bin', '-', ('param', 'self', 0), Hs))
-    ctx.check(ok, rule, 'dealloc:block', site(f), 'dealloc frees self - sizeof(struct Header), the block header_init was given')
+    m = Mem(header_words())
+    st.clear()
+    r = cint.CInt(P, f, atoms=dict(atoms0), call=call, recurse=True, mem=m.rd, memw=m.wr, max_depth=6, max_steps=4000).run([OBJ])
+    if r[0] == 'stuck':
+        ctx.undecided(rule, 'dealloc:block', site(f), 'dealloc leaves the evaluated fragment: %s' % r[1])
+    else:
+        ok = r[0] == 'ret' and st.get('freed') == BASE and m.bad is None
+        ctx.check(ok, rule, 'dealloc:block', site(f), 'dealloc frees self - sizeof(struct Header), the block header_init was given, and writes nothing outside it',
+                  ['frees block + %s%s' % ((st['freed'] - BASE) if isinstance(st.get('freed'), int) else st.get('freed'), '; ' + m.bad if m.bad else '')] if not ok else None)
     # Type_Of reads the header at self - H
     f = P.fn('Type_Of')
-    g = P.cfg(f)
-    N = util.Norm(P, f, expand_locals=True)
-    rets = [n for n in g.live() if n['kind'] == 'ret']
-    want = ir.canon(('arrow', ('bin', '-', ('param', 'self', 0), Hs), 'type'))
-    ok = len(rets) == 1 and N.canon(rets[0]['expr']) == want
-    ctx.check(ok, rule, 'Type_Of:reads', site(f), 'type_of returns the type word of the header at self - sizeof(struct Header)')
+    m = Mem(header_words())
+    r = cint.CInt(P, f, atoms=dict(atoms0), call=call, recurse=True, mem=m.rd, memw=m.wr).run([OBJ])
+    if r[0] == 'stuck':
+        ctx.undecided(rule, 'Type_Of:reads', site(f), 'type_of leaves the evaluated fragment: %s' % r[1])
+    else:
+        ok = r[0] == 'ret' and r[1] == TVAL and m.bad is None
+        ctx.check(ok, rule, 'Type_Of:reads', site(f), 'type_of returns the type word of the header at self - sizeof(struct Header)',
+                  ['returns %s%s' % (r[1] if r[0] == 'ret' else r[0], '; ' + m.bad if m.bad else '')] if not ok else None)
     ctx.floor(rule, 6)
 
 
